@@ -290,9 +290,10 @@ impl Parser {
 
         let maybe_class = input.user_data().get_type_of_executing_class();
 
-        if !value_ty.eq_complex(
-            expected_ty,
-            &TypecheckFlags::use_class(maybe_class.as_ref().map(Ref::clone)).lhs_unwrap(true),
+        // the slot's type judges the value, not the other way round: a `T?` slot takes a `T`, a `T` slot does not take a `T?`
+        if !expected_ty.eq_complex(
+            &value_ty,
+            &TypecheckFlags::use_class(maybe_class.as_ref().map(Ref::clone)),
         ) {
             let hint = expected_ty
                 .get_error_hint_between_types(&value_ty, maybe_class)
